@@ -1,3 +1,149 @@
-(* C02/Props.v -- property theorems only. *)
-From Coq Require Import Reals List Bool.
+(* C02/Props.v -- property theorems only; each is closed by [exact] of a lemma from
+   C02/{Roots,IPS,TensorR,DiscrR,TreeR}.v (re-exported by C02/Proofs.v) and followed by
+   Print Assumptions.  The model (C02/Model.v) is hand-written and tied to /repo by the
+   in-Coq correspondence (C02/Corr.v, harness/c02.py) on every run.
+   Carrier: R.  Arrays are flat lists; [tw_ok n w] says the weighting is a positive constant
+   or an array of n positive entries; [tw_vec n w] is its weight vector. *)
+From Coq Require Import Reals List Bool Permutation.
 From Verif Require Import Base.Num Base.Vec Base.VecR C02.Model C02.Proofs.
+Import ListNotations.
+Local Open Scope R_scope.
+
+(* ================= tensor spaces (NumpyTensorSpace{Const,Array}Weighting) ================= *)
+
+(* the inner product equals the documented weighted sum  sum_i w_i x_i y_i *)
+Theorem tensor_inner_weighted_sum : forall (w : @tweight R) (x y : list R),
+  length x = length y -> t_inner_v w x y = wdot (tw_vec (length x) w) x y.
+Proof. exact t_inner_wdot. Qed.
+Print Assumptions tensor_inner_weighted_sum.
+
+Theorem tensor_inner_symmetric : forall (n : nat) (w : @tweight R) (x y : list R),
+  tw_ok n w -> length x = n -> length y = n -> t_inner_v w x y = t_inner_v w y x.
+Proof. exact ti_sym_pkg. Qed.
+Print Assumptions tensor_inner_symmetric.
+
+Theorem tensor_inner_linear_first : forall (n : nat) (w : @tweight R) (a : R) (x y z : list R),
+  tw_ok n w -> length x = n -> length y = n -> length z = n ->
+  t_inner_v w (vadd (vscal a x) y) z = a * t_inner_v w x z + t_inner_v w y z.
+Proof. exact ti_linear. Qed.
+Print Assumptions tensor_inner_linear_first.
+
+Theorem tensor_inner_positive : forall (n : nat) (w : @tweight R) (x : list R),
+  tw_ok n w -> length x = n ->
+  0 <= t_inner_v w x x /\ (t_inner_v w x x = 0 -> Forall (fun a => a = 0) x).
+Proof. exact ti_positive. Qed.
+Print Assumptions tensor_inner_positive.
+
+Theorem tensor_cauchy_schwarz : forall (n : nat) (w : @tweight R) (x y : list R),
+  tw_ok n w -> length x = n -> length y = n ->
+  t_inner_v w x y * t_inner_v w x y <= t_inner_v w x x * t_inner_v w y y.
+Proof. exact ti_cs_pkg. Qed.
+Print Assumptions tensor_cauchy_schwarz.
+
+(* p = 2: the norm the code computes (sqrt(c) * nrm2(x), resp. sqrt(max(inner, 0))) is sqrt(inner(x,x)) *)
+Theorem tensor_norm2_sqrt_inner : forall (w : @tweight R) (x : list R),
+  tw_ok (length x) w -> t_norm_v w (PFin 2) x = sqrt (t_inner_v w x x).
+Proof. exact t_norm_v_2_inner. Qed.
+Print Assumptions tensor_norm2_sqrt_inner.
+
+(* every finite natural exponent: the norm is the documented (sum_i w_i |x_i|^p)^(1/p),
+   i.e. c^(1/p) ||x||_p for constant weighting; p = inf: max_i w_i |x_i|, i.e. c ||x||_inf *)
+Theorem tensor_norm_documented_p : forall (p : nat) (w : @tweight R) (x : list R),
+  (1 <= p)%nat -> tw_ok (length x) w ->
+  t_norm_v w (PFin p) x = Rroot p (sumf (vmul (map (fun t => Rabs t ^ p) x) (tw_vec (length x) w))).
+Proof. exact t_norm_v_fin. Qed.
+Print Assumptions tensor_norm_documented_p.
+Theorem tensor_norm_documented_inf : forall (w : @tweight R) (x : list R),
+  tw_ok (length x) w -> t_norm_v w PInf x = vmaxl (vmul (map Rabs x) (tw_vec (length x) w)).
+Proof. exact t_norm_v_inf. Qed.
+Print Assumptions tensor_norm_documented_inf.
+
+(* absolute homogeneity, EVERY exponent (inf and all natural p >= 1) *)
+Theorem tensor_norm_homogeneous : forall (w : @tweight R) (p : expo) (k : R) (x : list R),
+  tw_ok (length x) w -> (match p with PFin q => (1 <= q)%nat | PInf => True end) ->
+  t_norm_v w p (vscal k x) = Rabs k * t_norm_v w p x.
+Proof. exact t_norm_v_homog. Qed.
+Print Assumptions tensor_norm_homogeneous.
+
+(* triangle inequality, p in {1, 2, inf} *)
+Theorem tensor_norm_triangle_partial : forall (w : @tweight R) (p : expo) (x y : list R),
+  length x = length y -> tw_ok (length x) w ->
+  (p = PFin 1 \/ p = PFin 2 \/ p = PInf) ->
+  t_norm_v w p (vadd x y) <= t_norm_v w p x + t_norm_v w p y.
+Proof. exact t_norm_v_triangle. Qed.
+Print Assumptions tensor_norm_triangle_partial.
+
+(* dist(x, y) = norm(x - y) (the duplicated formulas of ConstWeighting.dist), and symmetric *)
+Theorem tensor_dist_norm_sub : forall (w : @tweight R) (p : expo) (x y : list R),
+  t_dist_v w p x y = t_norm_v w p (vsub x y).
+Proof. exact t_dist_v_norm. Qed.
+Print Assumptions tensor_dist_norm_sub.
+Theorem tensor_dist_symmetric : forall (w : @tweight R) (p : expo) (x y : list R),
+  length x = length y -> tw_ok (length x) w ->
+  (match p with PFin q => (1 <= q)%nat | PInf => True end) ->
+  t_dist_v w p x y = t_dist_v w p y x.
+Proof. exact t_dist_v_sym. Qed.
+Print Assumptions tensor_dist_symmetric.
+
+(* the call-level functions return exactly these values (no exception) on non-empty data *)
+Theorem tensor_calls_total : forall q blas (w : @tweight R) (p : expo) (x y : list R),
+  x <> [] -> length x = length y ->
+  t_inner w (PFin 2) x y = Ok (t_inner_v w x y) /\
+  t_norm q blas w p x = Ok (t_norm_v w p x) /\
+  t_dist q blas w p x y = Ok (t_norm_v w p (vsub x y)).
+Proof. exact t_calls_total. Qed.
+Print Assumptions tensor_calls_total.
+
+(* C / F memory layout: any simultaneous re-ordering of weights and data leaves the sum unchanged *)
+Theorem tensor_layout_invariant : forall (w x y w' x' y' : list R),
+  Permutation (zip3 w x y) (zip3 w' x' y') -> wdot w x y = wdot w' x' y'.
+Proof. exact wdot_layout_invariant. Qed.
+Print Assumptions tensor_layout_invariant.
+
+(* ================= uniformly discretized spaces ================= *)
+
+(* uniform_grid_fromintv: for each of the four nodes_on_bdry formulas, every n >= 2 and every
+   interval, the partition is well-formed and the boundary-cell fractions are exactly 1/2
+   (node on the boundary) or 1 *)
+Theorem grid_boundary_fractions : forall (n : nat) (a b : R) (bl br : bool),
+  (2 <= n)%nat -> a < b ->
+  ax_ok (mk_axis n a b bl br) /\
+  ax_fracs (mk_axis n a b bl br) = ((if bl then / 2 else 1), (if br then / 2 else 1)).
+Proof. exact mk_axis_fracs. Qed.
+Print Assumptions grid_boundary_fractions.
+
+(* cell-volume quadrature with boundary-cell fractions: for ANY number of axes, ANY number of
+   points per axis (one-point axes included) and ANY position of a uniform grid inside the
+   domain:  cell_volume * sum(boundary weight array) = volume of the domain *)
+Theorem quadrature_weights_sum_to_volume : forall axes : list (@axis R),
+  Forall ax_ok axes -> Forall ax_exact axes ->
+  cell_volume axes * sumf (bdry_w (fun f => f) axes) = extent_volume axes.
+Proof. exact volume_times_weight_sum. Qed.
+Print Assumptions quadrature_weights_sum_to_volume.
+
+(* ... hence <one, one> = ||one||^2 = domain volume, at the level of DiscretizedSpace._inner
+   with the default weighting.  FULL statement (no side condition on the cell volume):
+     forall q blas axes, Forall ax_ok axes -> Forall ax_exact axes -> axes <> [] ->
+       leaf_inner q (LDiscr blas axes LDefault (PFin 2)) ones ones = Ok (extent_volume axes)
+   It is FALSE of the faithful model for today's code (q_unweighted_skips = true) when the
+   cell volume is exactly 1: finding discr-unit-cell-volume-skips-bdry-fractions. *)
+Theorem discr_one_norm_sq_partial : forall q blas (axes : list (@axis R)),
+  Forall ax_ok axes -> Forall ax_exact axes -> axes <> [] ->
+  (q_unweighted_skips q = false \/ cell_volume axes <> 1) ->
+  leaf_inner q (LDiscr blas axes LDefault (PFin 2)) (repeat 1 (npoints axes)) (repeat 1 (npoints axes))
+  = Ok (extent_volume axes).
+Proof. exact discr_one_inner. Qed.
+Print Assumptions discr_one_norm_sq_partial.
+
+Theorem discr_one_norm_sq_refuted : exists q blas (axes : list (@axis R)),
+  q_unweighted_skips q = true /\ Forall ax_ok axes /\ Forall ax_exact axes /\ axes <> [] /\
+  leaf_inner q (LDiscr blas axes LDefault (PFin 2)) (repeat 1 (npoints axes)) (repeat 1 (npoints axes))
+  <> Ok (extent_volume axes).
+Proof. exact discr_one_refuted. Qed.
+Print Assumptions discr_one_norm_sq_refuted.
+
+(* non-vacuity: uniform_discr(0, 1, 3, nodes_on_bdry=True) satisfies every premise *)
+Example discr_premises_satisfiable :
+  let axes := [mk_axis 3 0 1 true true] in
+  Forall ax_ok axes /\ Forall ax_exact axes /\ cell_volume axes <> 1.
+Proof. exact discr_example. Qed.
